@@ -1920,7 +1920,7 @@ impl World {
                 if e.index > notified {
                     ctx.stat(Stat::AppliedUnpersisted);
                 }
-                if e.index > notified + limit {
+                if e.index > notified.saturating_add(limit) {
                     ctx.v(
                         "C07",
                         "entry handed out beyond persisted + max_apply_unpersisted_log_limit",
